@@ -193,7 +193,7 @@ func (c *CrossingEdgeQuery) candidatesEdgeMap(a, b Point) EdgeMap {
 
 	// If there are only a few edges then it's faster to use brute force. We
 	// only bother with this optimization when there is a single shape.
-	if len(c.index.shapes) == 1 {
+	if c.index.nextID == 1 && c.index.Shape(0) != nil {
 		// Typically this method is called many times, so it is worth checking
 		// whether the edge map is empty or already consists of a single entry for
 		// this shape, and skip clearing edge map in that case.
